@@ -94,6 +94,17 @@ WidenF32(b) ==
                       ELSE LET n == NormSub(m, -126) IN F64FromParts(neg, n[2] + 1023, n[1]))
   ELSE F64FromParts(neg, e - 127 + 1023, m)
 
+\* integer -> floating point, exact for |n| < 2^24 (enough for the corpus); larger magnitudes are left unspecified here
+RECURSIVE Log2Floor(_, _)
+Log2Floor(n, e) == IF n < 2 THEN e ELSE Log2Floor(n \div 2, e + 1)
+IntToFloat(v, T) ==
+  IF SigBytes(v[3]) > 3 THEN <<"any">>
+  ELSE LET n == BEval(Low(v[3], 4)) IN
+       IF n = 0 THEN (IF T = "f64" THEN <<"f64", Zeros(8)>> ELSE <<"f32", Zeros(4)>>)
+       ELSE LET e == Log2Floor(n, 0)
+                m23 == (n - 2 ^ e) * (2 ^ (23 - e))
+            IN IF T = "f64" THEN <<"f64", F64FromParts(v[2], e + 1023, m23)>> ELSE <<"f32", F32FromParts(v[2], e + 127, m23)>>
+
 -----------------------------------------------------------------------------
 (* Timestamps into chrono targets                                            *)
 \* seconds range of a 64-bit nanosecond count: |count| <= 2^63-1  =>  seconds in [-9223372037, 9223372036]
@@ -126,7 +137,10 @@ LoadElems(items, E, pol, i, acc) ==
 LoadLeaf(v, T, pol) ==
   LET k == v[1] IN
   IF T = "null" THEN (IF k = "nil" THEN <<"val", <<"nil">>>> ELSE Mismatch(pol))
-  ELSE IF k = "nil" THEN <<"skip">>                         \* null is "not loaded" for every other target
+  ELSE IF k = "nil" THEN                                    \* null is "not loaded" for every other target ...
+       (IF pol.arch # "msgpack" /\ pol.mm = "throw" /\ T \notin (IntTypes \cup {"bool", "f32", "f64"})
+        THEN <<"any">>          \* ... text archives + ThrowError + non-fundamental target: not fixed by the properties (left open)
+        ELSE <<"skip">>)
   ELSE IF T \in IntTypes THEN
        IF k = "int" THEN (IF IntFits(v[2], v[3], T) THEN <<"val", v>> ELSE Overflow(pol))
        ELSE IF k = "bool" THEN <<"val", IntSmall(IF v[2] THEN 1 ELSE 0)>>
@@ -135,6 +149,9 @@ LoadLeaf(v, T, pol) ==
        IF k = "bool" THEN <<"val", v>>
        ELSE IF k = "int" THEN (IF ~v[2] /\ SigBytes(v[3]) <= 1 /\ v[3][8] <= 1 THEN <<"val", <<"bool", v[3][8] = 1>>>> ELSE Overflow(pol))
        ELSE Mismatch(pol)
+  ELSE IF T \in {"f32", "f64"} /\ k = "int" /\ pol.arch # "msgpack" THEN
+       \* text archives: a number without fraction is still a number (JSON has one numeric kind)
+       LET f == IntToFloat(v, T) IN IF f[1] = "any" THEN <<"any">> ELSE <<"val", f>>
   ELSE IF T = "f64" THEN
        IF k = "f64" THEN <<"val", v>> ELSE IF k = "f32" THEN <<"val", <<"f64", WidenF32(v[2])>>>> ELSE Mismatch(pol)
   ELSE IF T = "f32" THEN
@@ -196,8 +213,9 @@ LeafEvent(tag, r, T) ==
 RECURSIVE ExecObjOps(_, _, _, _, _), ExecArrOps(_, _, _, _, _, _)
 
 \* scope entry shared by obj/arr ops: v = the value under the key (or <<"absent">>)
-OpenKind(v, want, pol) ==      \* "enter" | "skip" | <<"err", code>>
-  IF v[1] = "absent" \/ v[1] = "nil" THEN <<"skip">>
+OpenKind(v, want, pol) ==      \* "enter" | "skip" | <<"err", code>> | <<"any">>
+  IF v[1] = "nil" /\ pol.arch # "msgpack" /\ pol.mm = "throw" THEN <<"any">>
+  ELSE IF v[1] = "absent" \/ v[1] = "nil" THEN <<"skip">>
   ELSE IF v[1] = want THEN <<"enter">>
   ELSE Mismatch(pol)
 
@@ -206,6 +224,8 @@ ExecObjOps(pairs, ops, i, pol, st) ==
   ELSE LET op == ops[i] IN
     IF op.op = "visit" THEN
          ExecObjOps(pairs, ops, i + 1, pol, Emit(st, <<"visit", [j \in 1..Len(pairs) |-> pairs[j][1]]>>))
+    ELSE IF op.op = "base" THEN          \* members of a base class are requested from the same object
+         ExecObjOps(pairs, ops, i + 1, pol, ExecObjOps(pairs, op.ops, 1, pol, st))
     ELSE LET idx == FindKey(pairs, OpKey(op), 1)
              v == IF idx = 0 THEN <<"absent">> ELSE pairs[idx][2] IN
       IF op.op = "req" THEN
@@ -219,6 +239,7 @@ ExecObjOps(pairs, ops, i, pol, st) ==
                ok == OpenKind(v, want, pol)
                st1 == Emit(st, <<"open">>) IN
            IF ok[1] = "err" THEN Throw(st1, ok[2])
+           ELSE IF ok[1] = "any" THEN LeafAny(st1)
            ELSE IF ok[1] = "skip" THEN ExecObjOps(pairs, ops, i + 1, pol, Emit(st1, <<"close", FALSE>>))
            ELSE LET st2 == IF op.op = "obj" THEN ExecObjOps(v[2], op.ops, 1, pol, st1)
                            ELSE ExecArrOps(v[2], op.ops, 1, 1, pol, st1) IN
@@ -242,6 +263,7 @@ ExecArrOps(items, ops, i, pos, pol, st) ==
                ok == OpenKind(v, want, pol)
                st1 == Emit(st, <<"open">>) IN
            IF ok[1] = "err" THEN Throw(st1, ok[2])
+           ELSE IF ok[1] = "any" THEN LeafAny(st1)
            ELSE IF ok[1] = "skip" THEN ExecArrOps(items, ops, i + 1, pos + 1, pol, Emit(st1, <<"close", FALSE>>))
            ELSE LET st2 == IF op.op = "obj" THEN ExecObjOps(v[2], op.ops, 1, pol, st1)
                            ELSE ExecArrOps(v[2], op.ops, 1, 1, pol, st1) IN
@@ -260,6 +282,7 @@ Exec(doc, root, pol) ==
   ELSE LET want == IF root.k = "obj" THEN "map" ELSE "arr"
            ok == OpenKind(doc, want, pol) IN
        IF ok[1] = "err" THEN Throw(St0, ok[2])
+       ELSE IF ok[1] = "any" THEN LeafAny(St0)
        ELSE IF ok[1] = "skip" THEN St0
        ELSE IF root.k = "obj" THEN ExecObjOps(doc[2], root.ops, 1, pol, St0)
        ELSE ExecArrOps(doc[2], root.ops, 1, 1, pol, St0)
